@@ -48,7 +48,21 @@ class ErrorsModel:
     def evaluator(self, **kw) -> Evaluator:
         ev = Evaluator(self.methods, **kw)
         ev.classes = self.classes
-        ev.globals = self.globals
+
+        def insort(seq, item, *a, **k):
+            # bisect.insort_right through the repository's own __lt__
+            i = len(seq)
+            lo, hi = 0, len(seq)
+            while lo < hi:
+                mid = (lo + hi) // 2
+                if (ev.obj_lt(item, seq[mid]) if isinstance(item, Obj) else item < seq[mid]):
+                    hi = mid
+                else:
+                    lo = mid + 1
+            seq.insert(lo, item)
+
+        ev.globals = dict(self.globals, insort=insort, insort_right=insort)
+        ev.modules = dict(ev.modules, bisect={"insort": insort, "insort_right": insort})
         return ev
 
     ADD_FORMS = [("inst", "Error"), ("inst", "Notice"), ("name", "Error"), ("name", "Notice"), ("name-default", "Error"),
@@ -204,6 +218,7 @@ def check(run, prog):
     witness = None
     n_eval = 0
     unsupported = None
+    fail_values = set()
     if not unbound and not stale:
         for k in range(0, 4):
             for kinds in itertools.product(range(len(FILE_KINDS)), repeat=k):
@@ -223,6 +238,8 @@ def check(run, prog):
                 got_fail = bool(res) if not isinstance(res, str) else True
                 if got_fail != want_fail and witness is None:
                     witness = ([FILE_KINDS[i] for i in kinds], res)
+                if want_fail and got_fail:
+                    fail_values.add(res if isinstance(res, (int, bool, str)) else repr(res))
             if unsupported:
                 break
         if unsupported:
@@ -230,6 +247,11 @@ def check(run, prog):
                    f"exit expression is not a function of the analysed files' diagnostics that the analyser can evaluate "
                    f"({unsupported}); expected a quantification over `{files_name}` of .errors.status", exit_stmt)
         else:
+            numeric = {int(v) for v in fail_values if isinstance(v, (int, bool))}
+            run.ob("R-4.2", f"{main.key}::exit-arg[bounded]", len(numeric) <= 1 and all(0 < v < 256 for v in numeric),
+                   f"the exit status takes the values {sorted(numeric)} for 1..3 failing files: it grows with the number of "
+                   f"failing files, and the operating system keeps only its low 8 bits (256 failing files exit with 0)",
+                   exit_stmt, values=sorted(numeric))
             run.ob("R-4.2", f"{main.key}::exit-arg[value]", witness is None,
                    (f"exit status disagrees with the verdicts: files with diagnostic levels {witness[0]} "
                     f"exit with {witness[1]!r}") if witness else "exit value", exit_stmt, evaluations=n_eval)
